@@ -20,6 +20,7 @@ type Result struct {
 	Elapsed    time.Duration
 	Complete   bool
 	Pruned     int
+	Histories  int // distinct harness-visible event histories (Observe)
 	Sample     *Found // first execution, as an example of what was explored
 }
 
@@ -45,6 +46,7 @@ type Explorer struct {
 	MaxViol     int // distinct (rule,key) violations kept
 	seen        map[uint64]int16
 	vseen       map[string]bool
+	hseen       map[uint64]struct{}
 	Res         Result
 }
 
@@ -52,6 +54,7 @@ func (e *Explorer) Explore() *Result {
 	e.Res.Outcomes = map[string]int{}
 	e.seen = map[uint64]int16{}
 	e.vseen = map[string]bool{}
+	e.hseen = map[uint64]struct{}{}
 	if e.MaxSteps == 0 {
 		e.MaxSteps = 20000
 	}
@@ -63,6 +66,7 @@ func (e *Explorer) Explore() *Result {
 	e.explore(nil, 0)
 	e.Res.Elapsed = time.Since(t0)
 	e.Res.States = len(e.seen)
+	e.Res.Histories = len(e.hseen)
 	return &e.Res
 }
 
@@ -95,6 +99,7 @@ func (e *Explorer) explore(prefix []int, used int) {
 		S = nil
 	}
 	e.Res.Outcomes[s.OutcomeStr]++
+	e.hseen[mix(s.Obs, hashStr(s.OutcomeStr))] = struct{}{}
 	choices := make([]int, len(s.Points))
 	for i, p := range s.Points {
 		choices[i] = p.Chosen
